@@ -1,5 +1,8 @@
 import ChessVerif.Lemmas.TextTotal
 import ChessVerif.Spec.San
+import ChessVerif.Props.TextTotal
+import ChessVerif.Refine.Abs
+import ChessVerif.Lemmas.Core
 /-!
 The SAN scanner (`San.scan`, the part of `ChessMove::from_san` before the move loop) inverts the
 documented SAN writer (`SanSpec.spell`): pure text lemmas, no chess.
@@ -378,6 +381,252 @@ theorem scan_spell (p : Pos) (m : Move) (d : Disamb) (sfx : Suffix) (epMark : Bo
       some ⟨pc, disambFile d m.src, disambRank d m.src, isCapture p m, m.dst, m.promo, epMark⟩ := by
   rw [spell_eq_spellText p m d sfx epMark pc col hb]
   exact scan_spell_fields pc d m.src (isCapture p m) m.dst m.promo sfx epMark hp
+
+/-! ### castling text -/
+
+theorem castleText_short (sfx : Suffix) : castleText ("O-O".toList ++ suffixText sfx) = "O-O".toList := by
+  cases sfx <;> decide
+theorem castleText_long (sfx : Suffix) : castleText ("O-O-O".toList ++ suffixText sfx) = "O-O-O".toList := by
+  cases sfx <;> decide
+
+theorem castleText_head (a b : Char) (r : List Char) : ∃ r', castleText (a :: b :: r) = a :: r' := by
+  unfold castleText
+  split
+  · exact ⟨(b :: r).dropLast, by simp⟩
+  · exact ⟨(b :: r).dropLast, by simp⟩
+  · exact ⟨_, rfl⟩
+
+theorem fileChar_ne_O : ∀ f : Fin 8, fileChar f ≠ 'O' := by decide
+theorem rankChar_ne_O : ∀ r : Fin 8, rankChar r ≠ 'O' := by decide
+
+/-- a non-castling spelling starts with a piece letter, a file letter, a rank digit or `x`, and has
+at least two characters -/
+theorem spellText_head (pc : Piece) (d : Disamb) (src : Sq) (cap : Bool) (dest : Sq) (promo : Option Piece)
+    (sfx : Suffix) (epMark : Bool) :
+    ∃ a b r, spellText pc d src cap dest promo sfx epMark = a :: b :: r ∧ a ≠ 'O' := by
+  have h1 := fileChar_ne_O
+  have h2 := rankChar_ne_O
+  cases pc <;> cases d <;> cases cap <;>
+    simp [spellText, pieceLetter?, disambText, sqName_eq, showSquare, fileCh_eq, rankCh_eq, h1, h2]
+
+theorem castleText_spellText (pc : Piece) (d : Disamb) (src : Sq) (cap : Bool) (dest : Sq)
+    (promo : Option Piece) (sfx : Suffix) (epMark : Bool) :
+    ¬ (castleText (spellText pc d src cap dest promo sfx epMark) = "O-O".toList ∨
+       castleText (spellText pc d src cap dest promo sfx epMark) = "O-O-O".toList) := by
+  obtain ⟨a, b, r, h, ha⟩ := spellText_head pc d src cap dest promo sfx epMark
+  obtain ⟨r', hr⟩ := castleText_head a b r
+  rw [h, hr]
+  intro hh
+  rcases hh with hh | hh <;>
+  · have := (List.cons.inj hh).1
+    exact ha this
+
+theorem castleText_spell (p : Pos) (m : Move) (d : Disamb) (sfx : Suffix) (epMark : Bool)
+    (pc : Piece) (col : Color) (hb : p.board m.src = some (pc, col)) :
+    ¬ (castleText (spell p m d sfx epMark) = "O-O".toList ∨
+       castleText (spell p m d sfx epMark) = "O-O-O".toList) := by
+  rw [spell_eq_spellText p m d sfx epMark pc col hb]
+  exact castleText_spellText _ _ _ _ _ _ _ _
+
+/-! ### completeness relative to the generated move list -/
+
+theorem getFile_eq_iff (s t : Sq) : s.getFile = t.getFile ↔ s.file = t.file := by
+  unfold Sq.getFile Sq.file
+  constructor
+  · intro h; have := congrArg Fin.val h; simp only at this; rw [this]
+  · intro h; apply Fin.ext; simp only; omega
+theorem getRank_eq_iff (s t : Sq) : s.getRank = t.getRank ↔ s.rank = t.rank := by
+  unfold Sq.getRank Sq.rank
+  constructor
+  · intro h; have := congrArg Fin.val h; simp only at this; rw [this]
+  · intro h; apply Fin.ext; simp only; omega
+theorem sq_ext_fr {s t : Sq} (hf : s.getFile = t.getFile) (hr : s.getRank = t.getRank) : s = t := by
+  rw [← mkSq_getRank_getFile s, ← mkSq_getRank_getFile t, hf, hr]
+
+/-- the fields the scanner extracts from a spelling of `m` -/
+def fieldsOf (p : Pos) (pc : Piece) (m : Move) (d : Disamb) (epMark : Bool) : Fields :=
+  ⟨pc, disambFile d m.src, disambRank d m.src, isCapture p m, m.dst, m.promo, epMark⟩
+
+/-- the per-square queries of the board agree with its abstraction (holds under `Struct b`) -/
+def Agree (b : Board) : Prop := ∀ s, b.pieceOn s = (b.abs.board s).map (·.1)
+
+theorem baseMatch_fieldsOf (b : Board) (ha : Agree b) (pc : Piece) (col : Color) (m : Move) (d : Disamb)
+    (epMark : Bool) (hb : b.abs.board m.src = some (pc, col)) :
+    baseMatch b (fieldsOf b.abs pc m d epMark) m = true := by
+  unfold baseMatch fieldsOf
+  simp only [ha m.src, hb, Option.map_some, beq_self_eq_true, Bool.and_true, Bool.true_and, Bool.and_eq_true]
+  cases d <;> simp [disambFile, disambRank]
+
+theorem takesSkip_fieldsOf (b : Board) (ha : Agree b) (pc : Piece) (col : Color) (m : Move) (d : Disamb)
+    (epMark : Bool) (hb : b.abs.board m.src = some (pc, col)) :
+    takesSkip b (fieldsOf b.abs pc m d epMark) m = false := by
+  unfold takesSkip fieldsOf isCapture isEnPassant Pos.empty
+  simp only [ha m.dst, hb]
+  cases hd : b.abs.board m.dst with
+  | some x => simp
+  | none =>
+    cases pc <;> simp
+    intro _ h1 h2
+    exact h1 ((getFile_eq_iff _ _).1 h2)
+
+theorem agrees_of_baseMatch (b : Board) (ha : Agree b) (pc : Piece) (col : Color) (m x : Move) (d : Disamb)
+    (epMark : Bool) (hb : b.abs.board m.src = some (pc, col))
+    (hx : baseMatch b (fieldsOf b.abs pc m d epMark) x = true) : agrees b.abs d m x = true := by
+  unfold baseMatch fieldsOf at hx
+  simp only [Bool.and_eq_true, beq_iff_eq] at hx
+  obtain ⟨⟨⟨⟨h1, h2⟩, h3⟩, h4⟩, h5⟩ := hx
+  rw [ha x.src] at h1
+  unfold agrees
+  simp only [h1, hb, Option.map_some, beq_self_eq_true, h4, h5, Bool.true_and]
+  cases d
+  · rfl
+  · simp only [disambFile, beq_iff_eq] at h3
+    simpa using (getFile_eq_iff _ _).1 h3
+  · simp only [disambRank, beq_iff_eq] at h2
+    simpa using (getRank_eq_iff _ _).1 h2
+  · simp only [disambFile, disambRank, beq_iff_eq] at h2 h3
+    simpa using sq_ext_fr h3 h2
+
+theorem fromSan_spell (T : Tables) (b : Board) (m : Move) (d : Disamb) (sfx : Suffix) (epMark : Bool)
+    (pc : Piece) (col : Color)
+    (hnd : (b.legalMoves T).Nodup) (hm : m ∈ b.legalMoves T) (ha : Agree b)
+    (hb : b.abs.board m.src = some (pc, col))
+    (hp : m.promo ∈ [none, some .queen, some .rook, some .bishop, some .knight])
+    (hu : ∀ m' ∈ b.legalMoves T, agrees b.abs d m m' = true → m' = m) :
+    fromSan T b (spell b.abs m d sfx epMark) = .ok m := by
+  rw [Props.fromSan_ok_iff T b _ m (castleText_spell b.abs m d sfx epMark pc col hb)]
+  refine ⟨fieldsOf b.abs pc m d epMark, scan_spell b.abs m d sfx epMark pc col hb hp, ?_⟩
+  exact Props.san_loop_complete b _ _ m hnd hm (baseMatch_fieldsOf b ha pc col m d epMark hb)
+    (takesSkip_fieldsOf b ha pc col m d epMark hb)
+    (fun x hx hbx => hu x hx (agrees_of_baseMatch b ha pc col m x d epMark hb hbx))
+
+theorem fromSan_castle_short (T : Tables) (b : Board) (sfx : Suffix)
+    (hm : (⟨mkSq b.stm.backrank 4, mkSq b.stm.backrank 6, none⟩ : Move) ∈ b.legalMoves T) :
+    fromSan T b ("O-O".toList ++ suffixText sfx) = .ok ⟨mkSq b.stm.backrank 4, mkSq b.stm.backrank 6, none⟩ := by
+  unfold fromSan
+  simp only [castleText_short, true_or, if_true, List.contains_iff_mem.2 hm]
+
+theorem fromSan_castle_long (T : Tables) (b : Board) (sfx : Suffix)
+    (hm : (⟨mkSq b.stm.backrank 4, mkSq b.stm.backrank 2, none⟩ : Move) ∈ b.legalMoves T) :
+    fromSan T b ("O-O-O".toList ++ suffixText sfx) = .ok ⟨mkSq b.stm.backrank 4, mkSq b.stm.backrank 2, none⟩ := by
+  unfold fromSan
+  have h : ¬ ("O-O-O".toList = "O-O".toList) := by decide
+  simp only [castleText_long, or_true, if_true, if_neg h, List.contains_iff_mem.2 hm]
+
+theorem agree_of_struct {b : Board} (h : Struct b) : Agree b := by
+  intro s
+  rw [abs_board]
+  cases hc : b.content s with
+  | none =>
+    rw [(pieceOn_none_iff b s).2 ((h.content_none_iff s).1 hc)]; rfl
+  | some x =>
+    unfold Board.content at hc
+    cases hp : b.pieceOn s with
+    | none => rw [hp] at hc; cases hc
+    | some p =>
+      rw [hp] at hc
+      cases hcol : b.colorOn s with
+      | none => rw [hcol] at hc; cases hc
+      | some c => rw [hcol] at hc; injection hc with hc; subst hc; rfl
+
+/-! ### rejection -/
+
+/-- the moves the loop can return: base matches that pass the capture filter -/
+def hit (b : Board) (f : Fields) (m : Move) : Bool := baseMatch b f m && !takesSkip b f m
+
+theorem filter_hit (b : Board) (f : Fields) (l : List Move) :
+    l.filter (hit b f) = (l.filter (baseMatch b f)).filter (fun m => !takesSkip b f m) := by
+  rw [List.filter_filter]
+  congr 1
+  funext m
+  simp only [hit, Bool.and_comm]
+
+/-- accepted ⇒ exactly one entry of the list is a base match that passes the capture filter -/
+theorem loop_ok_count (b : Board) (f : Fields) (l : List Move) (m : Move)
+    (h : loop b f l none = some (some m)) : l.countP (hit b f) = 1 := by
+  obtain ⟨pre, h1, h2, h3⟩ := (loop_ok_iff b f l m).1 h
+  rw [List.countP_eq_length_filter, filter_hit, h1, List.filter_append]
+  have : pre.filter (fun m => !takesSkip b f m) = [] := by
+    rw [List.filter_eq_nil_iff]
+    intro x hx
+    simp [h2 x hx]
+  rw [this]
+  simp [h3]
+
+theorem fromSan_err_of_not_ok (T : Tables) (b : Board) (s : List Char)
+    (h : ∀ m, fromSan T b s ≠ .ok m) : fromSan T b s = .err := by
+  cases hr : fromSan T b s with
+  | ok m => exact absurd hr (h m)
+  | err => rfl
+  | panic => exact absurd hr (fromSan_ne_panic T b s)
+
+/-- well-formed non-castling text whose fields are not matched by exactly one generated move -/
+theorem fromSan_rejects_count (T : Tables) (b : Board) (s : List Char) (f : Fields)
+    (hc : ¬ (castleText s = "O-O".toList ∨ castleText s = "O-O-O".toList))
+    (hs : scan s = some f) (hn : (b.legalMoves T).countP (hit b f) ≠ 1) :
+    fromSan T b s = .err := by
+  apply fromSan_err_of_not_ok
+  intro m hm
+  obtain ⟨f', hf', hl⟩ := (Props.fromSan_ok_iff T b s m hc).1 hm
+  rw [hs] at hf'
+  injection hf' with hf'
+  subst hf'
+  exact hn (loop_ok_count b f _ m hl)
+
+theorem fromSan_rejects_malformed (T : Tables) (b : Board) (s : List Char)
+    (hc : ¬ (castleText s = "O-O".toList ∨ castleText s = "O-O-O".toList))
+    (hs : scan s = none) : fromSan T b s = .err := by
+  apply fromSan_err_of_not_ok
+  intro m hm
+  obtain ⟨f', hf', _⟩ := (Props.fromSan_ok_iff T b s m hc).1 hm
+  rw [hs] at hf'
+  cases hf'
+
+/-- no generated move is a base match that passes the capture filter -/
+theorem fromSan_rejects_none (T : Tables) (b : Board) (s : List Char) (f : Fields)
+    (hc : ¬ (castleText s = "O-O".toList ∨ castleText s = "O-O-O".toList))
+    (hs : scan s = some f)
+    (hn : ∀ m ∈ b.legalMoves T, baseMatch b f m = true → takesSkip b f m = true) :
+    fromSan T b s = .err := by
+  apply fromSan_err_of_not_ok
+  intro m hm
+  obtain ⟨f', hf', hl⟩ := (Props.fromSan_ok_iff T b s m hc).1 hm
+  rw [hs] at hf'
+  injection hf' with hf'
+  subst hf'
+  have := (loop_notfound_iff b f _).2 hn
+  rw [this] at hl
+  cases hl
+
+/-- two different generated moves fit the text (capture filter uniform on the base matches) -/
+theorem fromSan_rejects_ambiguous (T : Tables) (b : Board) (s : List Char) (f : Fields)
+    (hc : ¬ (castleText s = "O-O".toList ∨ castleText s = "O-O-O".toList))
+    (hs : scan s = some f)
+    (hu : f.piece ≠ .pawn ∨ f.takes = false ∨ f.ep = true ∨ (b.pieceOn f.dest).isSome = true)
+    (m₁ m₂ : Move) (h1 : m₁ ∈ b.legalMoves T) (h2 : m₂ ∈ b.legalMoves T) (hne : m₁ ≠ m₂)
+    (hb1 : baseMatch b f m₁ = true) (hb2 : baseMatch b f m₂ = true) :
+    fromSan T b s = .err := by
+  apply fromSan_err_of_not_ok
+  intro m hm
+  obtain ⟨f', hf', hl⟩ := (Props.fromSan_ok_iff T b s m hc).1 hm
+  rw [hs] at hf'
+  injection hf' with hf'
+  subst hf'
+  rcases loop_ambiguous_uniform b f _ m₁ m₂ h1 h2 hne hb1 hb2
+    (fun x _ y _ hx hy => takesSkip_uniform b f hu hx hy) with h | h <;>
+  · rw [h] at hl; cases hl
+
+/-- castling text when the castling move is not among the generated moves -/
+theorem fromSan_rejects_castle (T : Tables) (b : Board) (s : List Char)
+    (hc : castleText s = "O-O".toList ∨ castleText s = "O-O-O".toList)
+    (hn : (⟨mkSq b.stm.backrank 4, mkSq b.stm.backrank (if castleText s = "O-O".toList then 6 else 2), none⟩ : Move)
+      ∉ b.legalMoves T) :
+    fromSan T b s = .err := by
+  unfold fromSan
+  simp only [if_pos hc]
+  rw [if_neg]
+  intro h
+  exact hn (List.contains_iff_mem.1 h)
 
 end San
 end Chess
